@@ -22,7 +22,8 @@ def build(ctx):
         if not rep["ok"]:
             proof_broken = dict(kind="proof", detail=rep["log"][-3000:], theorems=rep["theorems"],
                                 bad_axioms=rep["bad_axioms"])
-    common.cargo_build("harness-intern", "default")
+    rel = common.cargo_build("harness-intern", "default")
+    idf.HARNESS_BIN = os.path.join(rel, "intern_harness")
     common.sh([os.path.join(common.ROOT, "ocaml/intern/build.sh"), common.ROOT], timeout=900, check=True)
     return proof_broken, rep
 
